@@ -358,6 +358,78 @@ impl<'ast> Visit<'ast> for Entry {
   }
 }
 
+/// every explicit panic site of src/ outside `#[cfg(test)]` modules: `.unwrap()` / `.expect(..)` calls, panicking macros,
+/// index expressions `a[i]` — aggregated as (file, enclosing fn, kind, count)
+struct PanicSites {
+  file: String,
+  cur_fn: Vec<String>,
+  rows: std::collections::BTreeMap<(String, String, String), usize>,
+}
+impl PanicSites {
+  fn hit(&mut self, kind: &str) {
+    let f = self.cur_fn.last().cloned().unwrap_or_default();
+    *self.rows.entry((self.file.clone(), f, kind.to_string())).or_insert(0) += 1;
+  }
+}
+impl<'ast> Visit<'ast> for PanicSites {
+  fn visit_item_mod(&mut self, n: &'ast syn::ItemMod) {
+    if is_cfg_test(&n.attrs) {
+      return;
+    }
+    syn::visit::visit_item_mod(self, n);
+  }
+  fn visit_item_fn(&mut self, n: &'ast syn::ItemFn) {
+    self.cur_fn.push(n.sig.ident.to_string());
+    syn::visit::visit_item_fn(self, n);
+    self.cur_fn.pop();
+  }
+  fn visit_impl_item_fn(&mut self, n: &'ast syn::ImplItemFn) {
+    self.cur_fn.push(n.sig.ident.to_string());
+    syn::visit::visit_impl_item_fn(self, n);
+    self.cur_fn.pop();
+  }
+  fn visit_expr_method_call(&mut self, n: &'ast syn::ExprMethodCall) {
+    let m = n.method.to_string();
+    if m == "unwrap" || m == "expect" || m == "unwrap_unchecked" {
+      self.hit(&m);
+    }
+    syn::visit::visit_expr_method_call(self, n);
+  }
+  fn visit_expr_index(&mut self, n: &'ast syn::ExprIndex) {
+    self.hit("index");
+    syn::visit::visit_expr_index(self, n);
+  }
+  fn visit_macro(&mut self, n: &'ast syn::Macro) {
+    let name = n.path.segments.last().map(|s| s.ident.to_string()).unwrap_or_default();
+    if ["panic", "unreachable", "todo", "unimplemented", "assert", "assert_eq", "assert_ne", "debug_assert", "debug_assert_eq", "debug_assert_ne"].contains(&name.as_str()) {
+      self.hit(&format!("{}!", name));
+    }
+    // inside other macros (`if_chain!`, `format!`, `matches!` …) the body is a token stream: count `unwrap` / `expect`
+    fn walk(ts: proc_macro2::TokenStream, out: &mut Vec<String>) {
+      let v: Vec<proc_macro2::TokenTree> = ts.into_iter().collect();
+      for (i, t) in v.iter().enumerate() {
+        match t {
+          proc_macro2::TokenTree::Ident(id) => {
+            let s = id.to_string();
+            let after_dot = i > 0 && matches!(&v[i - 1], proc_macro2::TokenTree::Punct(p) if p.as_char() == '.');
+            if after_dot && (s == "unwrap" || s == "expect") {
+              out.push(s);
+            }
+          }
+          proc_macro2::TokenTree::Group(g) => walk(g.stream(), out),
+          _ => {}
+        }
+      }
+    }
+    let mut found = vec![];
+    walk(n.tokens.clone(), &mut found);
+    for f in found {
+      self.hit(&format!("{} (in {}!)", f, name));
+    }
+    syn::visit::visit_macro(self, n);
+  }
+}
+
 fn write_if_changed(path: &str, content: &str) {
   if std::fs::read_to_string(path).ok().as_deref() != Some(content) {
     std::fs::write(path, content).unwrap();
@@ -372,6 +444,7 @@ fn main() {
   let mut v = Impls { file: String::new(), rows: vec![], stops: vec![], cur_fn: vec![] };
   let mut ctx_rows: Vec<(String, Vec<String>)> = vec![];
   let mut statics = Statics { file: String::new(), rows: vec![] };
+  let mut psites = PanicSites { file: String::new(), cur_fn: vec![], rows: Default::default() };
   let mut entry = Entry { cur: None, calls: vec![], inner_args: vec![] };
   let mut cells = Cells { file: String::new(), site: vec![], rows: vec![] };
   for p in &files {
@@ -383,6 +456,11 @@ fn main() {
     statics.visit_file(&f);
     if v.file == "src/linter.rs" {
       entry.visit_file(&f);
+    }
+    // (src/test_util.rs is the body of a `#[cfg(test)] mod test_util;`)
+    if !v.file.ends_with("test_util.rs") {
+      psites.file = v.file.clone();
+      psites.visit_file(&f);
     }
     cells.file = v.file.clone();
     cells.visit_file(&f);
@@ -422,6 +500,13 @@ fn main() {
     t.push_str(&rows.join(",\n"));
     t.push_str("\n]\n\nend DL.Gen\n");
     write_if_changed(&format!("{}/EntryPoints.lean", out), &t);
+  }
+  {
+    let mut t = String::from("/-! GENERATED by harness/src/bin/translate2.rs (syn): every explicit panic site of src/ outside test modules\n(`.unwrap()`, `.expect(..)`, panicking macros, index expressions), aggregated: (file, enclosing fn, kind, count). -/\nnamespace DL.Gen\n\ndef panicSites : List (String × String × String × Nat) := [\n");
+    let rows: Vec<String> = psites.rows.iter().map(|((a, b, c), n)| format!("  ({}, {}, {}, {})", lean_str(a), lean_str(b), lean_str(c), n)).collect();
+    t.push_str(&rows.join(",\n"));
+    t.push_str("\n]\n\nend DL.Gen\n");
+    write_if_changed(&format!("{}/PanicSites.lean", out), &t);
   }
   let mut s = String::from("/-! GENERATED by harness/src/bin/translate2.rs (syn): every `visit_*` override of every `impl Visit for` in src/, with\nwhether each path through it recurses into the node's children (`always`), some traversal call exists (`sometimes`), or none (`never`). -/\nnamespace DL.Gen\n\n/-- (file, visitor type, method, class) for the overrides that do **not** always recurse -/\ndef visitNotAlways : List (String × String × String × String) := [\n");
   let rows: Vec<String> = v.rows.iter().filter(|r| r.3 != "always").map(|(a, b, c, d)| format!("  ({}, {}, {}, {})", lean_str(a), lean_str(b), lean_str(c), lean_str(d))).collect();
